@@ -16,6 +16,7 @@ import (
 	"github.com/btcsuite/btcwallet/walletdb"
 	"github.com/btcsuite/btcwallet/wtxmgr"
 	"github.com/lightningnetwork/lnd/clock"
+	"verifharness/faultdb"
 )
 
 var txNS = []byte("wtxmgr")
@@ -30,13 +31,14 @@ type txInfo struct {
 }
 
 type txWorld struct {
-	seed    int64
-	txs     []*txInfo
-	db      walletdb.DB
-	store   *wtxmgr.Store
-	top     int32 // highest block height used so far (recomputed on open)
-	labels  int
-	afterOp func()
+	seed      int64
+	txs       []*txInfo
+	db        walletdb.DB
+	store     *wtxmgr.Store
+	top       int32 // highest block height used so far (recomputed on open)
+	labels    int
+	afterOp   func()
+	failAfter bool
 }
 
 const txUniverseSize = 9
@@ -145,6 +147,11 @@ func (w *txWorld) update(f func(ns walletdb.ReadWriteBucket) error) error {
 		err := f(tx.ReadWriteBucket(txNS))
 		if w.afterOp != nil {
 			w.afterOp() // still inside the transaction, before commit / rollback
+		}
+		if err == nil && w.failAfter {
+			// "a later write of the same wallet-level operation fails": the transaction is rolled back
+			// although this manager operation returned nil
+			return faultdb.ErrInjected
 		}
 		return err
 	})
